@@ -1,4 +1,4 @@
-import LyModel.Valid.Model
+import LyModel.Valid.Spec
 /-! driver ops of component `valid` (C02, C07): see harness/api_val.c and harness/api_norm.c for the protocol -/
 namespace LyModel.Valid.Drv
 open LyModel LyModel.Tree
@@ -30,6 +30,14 @@ def handle (op : String) (args : List String) : String :=
           else
             let es := if o.multiError then r.errs else r.errs.take 1
             "ok invalid " ++ toString es.length ++ " " ++ errToks es
+      | _, _ => "err BadTree"
+  | "spec", [dsl, xdsl, opts, dump] =>
+    -- the violated constraint families of the RFC specification (model only)
+    withX dsl xdsl fun X =>
+      match opts.toNat?, forestOfHex X.base dump with
+      | some on, some f =>
+        let ks := violations X (VOpts.ofNat on) (canon X.base (heightL f + 1) (freshL X.base f))
+        "ok " ++ toString ks.eraseDups.length ++ " " ++ " ".intercalate (ks.eraseDups.map (·.name))
       | _, _ => "err BadTree"
   | _, _ => "err BadOp"
 
